@@ -121,6 +121,12 @@ def main(argv):
             print(f"KNOWN-FINDING: property={pid} {f['title']} [{f['id']}, seen {known_hits[f['id']]}x]")
 
     n_viol = len(fresh)
+    if fresh:
+        from collections import Counter
+
+        cls = Counter((v["invariant"], json.dumps(v["sig"], sort_keys=True)) for _, v in fresh)
+        for (inv, sg), c in cls.most_common(25):
+            print(f"  class {inv} {sg}: {c}")
     replays = []
     if fresh:
         seen_inv = []
